@@ -172,6 +172,10 @@ def rbasex_transform(IM, origin='center', rmax='MIN', order=2, odd=False,
         the object from which various distributions for the transformed image
         can be retrieved, see :class:`abel.tools.vmi.Distributions.Results`
     """
+    if direction not in ('forward', 'inverse'):
+        raise ValueError('Wrong direction "{}" (must be "forward" or '
+                         '"inverse").'.format(direction))
+
     if order == 0:
         odd = False  # (to eliminate additional checks)
     elif order % 2:
